@@ -1,0 +1,7 @@
+//go:build !verif
+
+// Package verifhook provides named gate/event points for verification builds.
+package verifhook
+
+// At is a no-op unless built with the verif tag.
+func At(string, ...any) {}
